@@ -171,8 +171,21 @@ impl<C: UistClient> SendOrder<Order> for UistBroker<C> {
                     return UistBrokerEvent::OrderInvalid(order.clone());
                 }
 
-                self.http_client
-                    .insert_order(order.clone(), self.backtest_id);
+                //The client returns a future, nothing is sent until it is driven to completion
+                if executor::block_on(
+                    self.http_client
+                        .insert_order(order.clone(), self.backtest_id),
+                )
+                .is_err()
+                {
+                    info!(
+                        "BROKER: Failed to send {:?} order for {:?} shares of {:?} to exchange",
+                        order.get_order_type(),
+                        order.get_shares(),
+                        order.get_symbol()
+                    );
+                    return UistBrokerEvent::OrderFailure(order);
+                }
                 //From the point of view of strategy, an order pending is the same as an order
                 //executed. If the order is executed, then it is executed. If the order isn't
                 //executed then the strategy must wait but all the strategy's work has been
